@@ -1907,8 +1907,23 @@ def full(shape, fill, dtype=None, **kw):
     return T(zv, tag, None, None, shp)
 
 
+# sizes a contract has declared to be the length of a record's time axis: a tensor created with such a leading dimension
+# has a time axis also when the observations are 0-dimensional, i.e. the shape is just (N,)
+TIME_SIZES = []
+
+
+def _is_time_size(d):
+    try:
+        dz = z3.simplify(num(d))
+    except Exception:
+        return False
+    return any(z3.eq(dz, z3.simplify(t)) for t in TIME_SIZES)
+
+
 def _looks_time_first(items):
     # (N, *S): first item is a dim, remaining is exactly one Star
+    if len(items) >= 1 and not isinstance(items[0], Star) and not any(isinstance(i, Star) for i in items[1:]) and _is_time_size(items[0]):
+        return True
     return len(items) >= 1 and not isinstance(items[0], Star) and len(items) == 2 and isinstance(items[1], Star)
 
 
